@@ -74,7 +74,7 @@ struct Engine {
     std::vector<std::string> probes;
     uint64_t quick_runs = 1000, thorough_runs = 20000;
     double quick_wall_cap = 150, thorough_wall_cap = 1500;
-    double run_timeout_s = 60;
+    double run_timeout_s = 60, thorough_run_timeout_s = 0;  // the latter, if set, replaces the former in the thorough tier
 };
 
 [[noreturn]] void finish_run(const RunResult &r);  // child side
